@@ -22,7 +22,7 @@ CHECKS = {
         engine="direct",
         technique="exhaustive enumeration of small finite sub-spaces + property-based testing (Hypothesis) + coverage-guided fuzzing (atheris/libFuzzer, oracle inside the target) against a reference model (RefPyramid); differential full-vs-sub-pyramid",
         text="Every position to depth 7/9 for the position algebra, every depth-2 filter (canonical in quick, all 2^20 in thorough) and every apex, plus generated (kind, depth<=5/6, filter, apex) pyramids; counters, enumerators and the callbacks actually made are compared with an independent model.",
-        note="Trusts RefPyramid (60 lines, written from the documentation). Filters are position predicates; geometric filters belong to C07.",
+        note="Trusts RefPyramid (60 lines, written from the documentation). Filters are position predicates, plus filters that decide by the tile's sky position (reference set from RefToast in the pyramid's coordinate system); image-footprint filters belong to C07.",
         design="DESIGN.md §3 C13",
     ),
 }
